@@ -5,6 +5,7 @@ import (
 	"fmt"
 	"sort"
 	"time"
+	"unicode/utf8"
 
 	"example.com/m/q"
 )
@@ -169,11 +170,88 @@ func Scan(s Src, i int) uint64 {
 	return 0
 }
 
+// Class: switch on a byte, with and without a tag; string constants and comparisons (a string is its bytes).
+func Class(c byte, s string) int {
+	switch c {
+	case 'a', 'b':
+		return 1
+	case '_':
+		if s == "x" {
+			return 5
+		}
+	default:
+		return 0
+	}
+	switch {
+	case len(s) > 3 && s[0] == '#':
+		return 2
+	}
+	return 3
+}
+
+// table is a package-level array: a parameter of the translated function, returned when it is written.
+var table [4]bool
+
+func initTable() {
+	for i := 1; i < 3; i++ {
+		table[i] = true
+	}
+}
+
+// Compact: a range loop whose body writes the slice it ranges over (in-place filter), append and 3-argument make.
+func Compact(xs []int) ([]int, []int) {
+	dropped := make([]int, 0, len(xs))
+	k := 0
+	for _, x := range xs {
+		if x < 0 {
+			dropped = append(dropped, x)
+			continue
+		}
+		xs[k] = x
+		k++
+	}
+	return xs[:k], dropped
+}
+
+// Acc: a field of a struct parameter is updated (returned after the results); Settle is sliced with a Result.
+type Acc struct{ Total uint64 }
+
+func (a *Acc) Sub(n uint64) {
+	if a.Total > 0 {
+		a.Total -= n
+	}
+}
+
+func Settle(a *Acc, n uint64, log func(string)) {
+	log("settle")
+	if a.Total > 0 {
+		a.Total -= n
+	}
+	log("done")
+}
+
+// First: an oracle with two results.
+func First(s string) int {
+	r, size := utf8.DecodeRuneInString(s)
+	if r == utf8.RuneError {
+		return -1
+	}
+	return size
+}
+
 // the following are outside the fragment
 
 func Float(x float64) int { return int(x * 2) }
 
 func Map(m map[string]int) int { return m["a"] }
+
+func Runes(s string) int {
+	n := 0
+	for range s {
+		n++
+	}
+	return n
+}
 
 func Spawn(n int) int {
 	go Rec(n)
